@@ -117,6 +117,68 @@ Definition trace_restricted_b (sc : scan) : bool :=
                     | In (Id x) [Raw r] => String.eqb x "traces.trace_id" && String.eqb r "trace_ids"
                     | _ => false end) (sc_conj sc).
 
+(* ---------- the complexity estimate of a TraceQL request (planner.planEval: attr_condition_eval.go, attrless_eval.go,
+   complex_eval_or.go, eval_finalizer.go, the planEval methods of the expression planners) and the two planners of
+   /api/v2/search/tags and /tag/../values without a query (all_tags_request_planner.go; all_values is in TraceqlPlan.v).
+   Transcribed here (C11's model has only the planners of the statements whose rows are returned). ---------- *)
+Module TE.
+  Import TraceqlPlan TqSql.
+  (* AttrConditionEvaluatorPlanner wraps an AttrConditionPlanner over NewInitIndexPlanner(true): the distributed table *)
+  Definition eval_ctx (c : ctx) : ctx :=
+    {| from_ns := from_ns c; to_ns := to_ns c; from_date := from_date c; to_date := to_date c; ffd_from := ffd_from c; ffd_to := ffd_to c;
+       limit := limit c; is_cluster := is_cluster c; rf_max := rf_max c; rf_i := rf_i c; cached := cached c;
+       attrs_table := attrs_dist_table c; attrs_dist_table := attrs_dist_table c; traces_table := traces_table c;
+       traces_dist_table := traces_dist_table c; kv_dist_table := kv_dist_table c |}.
+  Definition set_having_none (s : select) : select :=
+    match s with Sel w d c f j pw wh _ gb ob l => Sel w d c f j pw wh None gb ob l end.
+  (* main.SetHaving(nil).GroupBy(&bitSet{sqlConds}, prefix).OrderBy().Select('<prefix>' as prefix, count() as _count) *)
+  Definition attr_condition_eval (c : ctx) (terms : list Traceql.attr_sel) (cond : option condition) (agg : string)
+             (prefix : string) (n : nat) : result select :=
+    bind (attr_condition (eval_ctx c) terms cond agg n) (fun main =>
+    bind (map_res get_term terms) (fun scs =>
+    Ok (set_cols [Col (StrV prefix) "prefix"; Col (Id "count()") "_count"]
+         (set_order [] (set_groupby [BitSet scs; Id "prefix"] (set_having_none main)))))).
+  (* AttrlessEvaluatorPlanner: no table is read *)
+  Definition attrless_eval (c : ctx) (prefix : string) : select :=
+    Sel [] false [Col (StrV prefix) "prefix"; Col (IntV (limit c)) "_count"] None [] None None None [] [] None.
+  (* simpleExpressionPlanner.planEval + Process *)
+  Definition simple_eval (c : ctx) (s : Traceql.script) (prefix : string) (n : nat) : result select :=
+    bind (check s) (fun _ =>
+    let h := Traceql.sc_head s in
+    let '(cond, terms) := analyze h in
+    match Traceql.sel_attr h with
+    | Some _ => attr_condition_eval c terms cond (agg_attr_of h) prefix n
+    | None => Ok (attrless_eval c prefix)
+    end).
+  (* complexExpressionPlanner.planEval (ComplexEvalOrPlanner for && and || alike) + Process *)
+  Fixpoint ep_eval (c : ctx) (n : nat) (t : ep) : result select :=
+    match t with
+    | EPSimple s prefix => simple_eval c s prefix n
+    | EPComplex prefix _ ops =>
+        bind ((fix go (l : list ep) : result (list select) :=
+                 match l with
+                 | [] => Ok []
+                 | x :: r => bind (ep_eval c n x) (fun y => bind (go r) (fun ys => Ok (y :: ys)))
+                 end) ops)
+             (fun sels => Ok (Sel [] false [Id "*"] (Some (Col (Union sels) (prefix ++ "a"))) [] None None None [] [] None))
+    end.
+  Definition eval_finalizer (main : select) : select :=
+    set_with [("pre_final", main)] (Sel [] false [Col (Id "_count") "_count"] (Some (WRef "pre_final")) [] None None None [] [] None).
+  (* planner.planEval: a fresh planner object, so the prefixes are numbered from _1 again *)
+  Definition plan_eval (q : Traceql.script) (c : ctx) (n : nat) : result select :=
+    bind (match Traceql.sc_tail q with
+          | None => simple_eval c q (prefix_of 1) n
+          | Some _ => match plan_complex None 0 None q with
+                      | Some (Some t, _) => ep_eval c n t
+                      | _ => Panic
+                      end
+          end) (fun main => Ok (eval_finalizer main)).
+  (* AllTagsRequestPlanner *)
+  Definition all_tags (c : ctx) : select :=
+    Sel [] true [Col (Id "key") "key"] (Some (Id (kv_dist_table c))) [] None
+        (Some (LOp OAnd [LOp OGe [Id "date"; StrV (ffd_from c)]; LOp OLe [Id "date"; StrV (to_date c)]])) None [] [] None.
+End TE.
+
 (* verdict of the oracle on the statement of a plan (for generated / vm_compute cases) *)
 Definition tq_report (c : TraceqlPlan.ctx) (s : TqSql.select) : list (string * list Z) :=
   map (fun sc => (sc_table sc, map failure_code (scan_failures table_info (tq_win c) sc))) (tq_scans s).
@@ -176,3 +238,15 @@ Definition tq_ctx_ok_b (c : TraceqlPlan.ctx) : bool :=
   Z.leb (1800 * 1000000000) (TraceqlPlan.from_ns c) && Z.leb (TraceqlPlan.from_ns c) (TraceqlPlan.to_ns c)
   && Z.ltb (TraceqlPlan.to_ns c) (47482 * ns_per_day) && tq_dates_utc c.
 Definition tq_ctx_not_ok (cs : list tq_case) : list Z := map tc_id (filter (fun c => negb (tq_ctx_ok_b (tc_ctx c))) cs).
+
+(* the complexity estimate and the tags statement without a query: text of the model's statement vs the recorded one *)
+Record te_case := { te_id : Z; te_ctx : TraceqlPlan.ctx; te_q : option Traceql.script; te_sql : string }.
+Definition te_mismatch (c : te_case) : bool :=
+  match te_q c with
+  | Some q => match TE.plan_eval q (te_ctx c) 1 with
+              | TraceqlPlan.Ok s => negb (String.eqb (TqSql.render s) (te_sql c))
+              | _ => true end
+  | None => negb (String.eqb (TqSql.render (TE.all_tags (te_ctx c))) (te_sql c))
+  end.
+Definition te_mismatches (cs : list te_case) : list Z := map te_id (filter te_mismatch cs).
+Definition te_ctx_not_ok (cs : list te_case) : list Z := map te_id (filter (fun c => negb (tq_ctx_ok_b (te_ctx c))) cs).
